@@ -5,6 +5,7 @@ the implementation runner and an independent coordinate-based oracle.
 op line:  data <cfg> <inputs> <reqs>      (format documented in lean/VerifModel/Driver/Data.lean)
 """
 import math
+import random
 import warnings
 import numpy as np
 from common import xr, xvec, from_xr, from_xvec
@@ -364,6 +365,14 @@ def gen_dataset(rng, n_inputs=None, with_clim=None, missing=None, big=False):
     tpool = [base + d * 86400 + h * 3600 for d in range(3) for h in (0, 12)]
     lpool = [0.0, 6.0, 12.0, 24.0, 30.0, 48.0]
     xpool = [(float(i), round(40 + 7.5 * i, 1), round(-30 + 60.0 * i, 1), float(100 * i)) for i in range(5)]
+    # coordinate values that are close in relative terms and still different coordinates: hourly initialisations
+    # (3600 s apart at 1.3e9 s) and six-digit station ids; separate random stream, so that the rest of the dataset
+    # is the one the main stream gives with or without them
+    rng2 = random.Random(rng.random())
+    if rng2.random() < 0.3:
+        tpool = [base + 82800 + h * 3600 for h in range(6)]               # 23 UTC … 04 UTC across midnight
+    if rng2.random() < 0.3:
+        xpool = [(float(100000 + i),) + x[1:] for i, x in enumerate(xpool)]
     pmiss = missing if missing is not None else rng.choice([0.0, 0.1, 0.3])
     total = n + (1 if clim else 0)
     extra_field = rng.random() < 0.4
